@@ -2009,10 +2009,10 @@ class Enum(Adapter):
         code.append(f"{fname} = {repr(self.encmapping)}")
         return f"(reuse({fname}.get(obj, obj), lambda obj: ({self.subcon._compilebuild(code)})), obj)[1]"
 
-    def _emitprimitivetype(self, ksy, bitwise):
+    def _emitfulltype(self, ksy, bitwise):
         name = "enum_%s" % ksy.allocateId()
         ksy.enums[name] = self.ksymapping
-        return name
+        return dict(type=self.subcon._compileprimitivetype(ksy, bitwise), enum=name)
 
 
 class BitwisableString(str):
